@@ -7,7 +7,7 @@ ID = "C19"
 CHUNK = 1
 
 N = 3
-ARGS = ["pg", "pc", "pcat", "x", "u", "v"]
+ARGS = ["pg", "pc", "pcat", "x", "u", "v", "vcp"]
 METHODS = [("MS", 1), ("MS", 2), ("SS", 1), ("DC", 1), ("DC", 2)]
 
 A0 = np.array([[-0.5, 0.2], [-0.2, -0.6]])
@@ -31,17 +31,24 @@ def values(name, which):
         return np.array([[0.3, -0.2, 0.1], [-0.4, 0.5, 0.0], [0.1, 0.1, -0.6]][which]).reshape(1, N)
     if name == "v":
         return [0.25, -0.35, 0.6][which]
+    if name == "vcp":
+        return np.array([[0.1, 0.3, -0.2, 0.45], [-0.3, 0.2, 0.5, -0.15], [0.4, -0.1, 0.05, 0.3]][which]).reshape(1, N + 1)
     raise KeyError(name)
 
 
-def build(meth, M, budget):
+def build(meth, M, budget, variant="fixed"):
     import rockit, casadi as ca
-    ocp = rockit.Ocp(t0=0.2, T=1.5)
+    ocp = rockit.Ocp(t0=0.2, T=rockit.FreeTime(1.5) if variant == "Tfree" else 1.5)
     x = ocp.state(2); u = ocp.control()
     A = ocp.parameter(2, 2); b = ocp.parameter(2, 1); pg = ocp.parameter(); pc = ocp.parameter(grid="control")
     v = ocp.variable()
-    ocp.set_der(x, ca.mtimes(A, x) + b * u + ca.vertcat(pc, 0) + ca.vertcat(0, v))
-    ocp.add_objective(ocp.integral(ca.sumsqr(x) + u * u) + ca.sumsqr(ocp.at_tf(x) - ca.vertcat(pg, 0.5)) + (v - 0.3) ** 2)
+    wv = ocp.variable(grid="control", include_last=True)
+    ocp.set_der(x, ca.mtimes(A, x) + b * u + ca.vertcat(pc, 0) + ca.vertcat(0, v) + ca.vertcat(0.1 * wv, 0))
+    ocp.add_objective(ocp.integral(ca.sumsqr(x) + u * u) + ca.sumsqr(ocp.at_tf(x) - ca.vertcat(pg, 0.5)) + (v - 0.3) ** 2 + ocp.sum((wv - 0.2) ** 2, include_last=True))
+    if variant == "Tfree":
+        # a user guess for the free horizon that is NOT an argument of the function: it keeps its current value
+        ocp.add_objective((ocp.T - 1.8) ** 2)
+        ocp.set_initial(ocp.T, 2.2)
     ocp.subject_to(ocp.at_t0(x) == ca.vertcat(1.0, 0.5))
     ocp.subject_to(-2 <= (u <= 2))
     ocp.set_value(A, A0); ocp.set_value(b, B0); ocp.set_value(pg, 0.9); ocp.set_value(pc, np.array([[0.1, 0.2, -0.1]]))
@@ -53,7 +60,7 @@ def build(meth, M, budget):
         opts["ipopt.max_iter"] = 0
     ocp.solver("ipopt", opts)
     ocp.method({"MS": lambda: rockit.MultipleShooting(N=N, M=M), "SS": lambda: rockit.SingleShooting(N=N, M=M), "DC": lambda: rockit.DirectCollocation(N=N, M=M, degree=2)}[meth]())
-    return ocp, dict(x=x, u=u, A=A, b=b, pg=pg, pc=pc, v=v)
+    return ocp, dict(x=x, u=u, A=A, b=b, pg=pg, pc=pc, v=v, wv=wv)
 
 
 def arg_expr(ocp, s, name):
@@ -64,6 +71,7 @@ def arg_expr(ocp, s, name):
     if name == "x": return ocp.sample(s["x"], grid="control")[1]
     if name == "u": return ocp.sample(s["u"], grid="control-")[1]
     if name == "v": return ocp.value(s["v"])
+    if name == "vcp": return ocp.sample(s["wv"], grid="control")[1]
 
 
 def assign(ocp, s, name, val):
@@ -74,10 +82,12 @@ def assign(ocp, s, name, val):
     elif name == "x": ocp.set_initial(s["x"], val)
     elif name == "u": ocp.set_initial(s["u"], val)
     elif name == "v": ocp.set_initial(s["v"], val)
+    elif name == "vcp": ocp.set_initial(s["wv"], val)
 
 
 def results(ocp, s):
-    return [ocp.sample(s["x"], grid="control")[1], ocp.sample(s["u"], grid="control-")[1], ocp.value(ocp.objective), ocp.value(s["v"])]
+    return [ocp.sample(s["x"], grid="control")[1], ocp.sample(s["u"], grid="control-")[1], ocp.value(ocp.objective), ocp.value(s["v"]),
+            ocp.sample(s["wv"], grid="control")[1], ocp.value(ocp.T)]
 
 
 def cases(tier):
@@ -94,6 +104,9 @@ def cases(tier):
                     if k == 2 and tier != "thorough" and (meth, M) in (("MS", 2), ("DC", 2)) and args[0] > args[1]:
                         continue
                     out.append(dict(method=meth, M=M, budget=budget, args=list(args)))
+            # free horizon with a user guess that is not among the arguments
+            for args in (["u"], ["pg"], ["v", "u"], ["vcp"]):
+                out.append(dict(method=meth, M=M, budget=budget, args=args, variant="Tfree"))
     return out
 
 
@@ -105,7 +118,8 @@ def run_case(case):
     evals = 0
     inconclusive = 0
     try:
-        ocp, s = build(meth, M, budget)
+        variant = case.get("variant", "fixed")
+        ocp, s = build(meth, M, budget, variant)
         F = ocp.to_function("F", [arg_expr(ocp, s, a) for a in args], results(ocp, s))
     except Exception as e:
         fr = core.rockit_frame(sys.exc_info()[2])
@@ -123,7 +137,7 @@ def run_case(case):
             vios.append(dict(sig="exception:F-call", tags=tags, detail="%s: %s" % (type(e).__name__, str(e)[:200]))); break
         # the imperative pipeline on a fresh OCP
         try:
-            o2, s2 = build(meth, M, budget)
+            o2, s2 = build(meth, M, budget, variant)
             for a, v_ in zip(args, vals):
                 assign(o2, s2, a, v_)
             if budget == "converge":
@@ -136,14 +150,16 @@ def run_case(case):
                 sol = o2.solve_limited()
             _, xs = sol.sample(s2["x"], grid="control")
             _, us = sol.sample(s2["u"], grid="control-")
-            want = [np.atleast_2d(xs).T if np.atleast_2d(xs).shape[0] == N + 1 else np.atleast_2d(xs), np.atleast_2d(us), np.atleast_2d(sol.value(o2.objective)), np.atleast_2d(sol.value(s2["v"]))]
+            _, ws = sol.sample(s2["wv"], grid="control")
+            want = [np.atleast_2d(xs).T if np.atleast_2d(xs).shape[0] == N + 1 else np.atleast_2d(xs), np.atleast_2d(us), np.atleast_2d(sol.value(o2.objective)), np.atleast_2d(sol.value(s2["v"])),
+                    np.atleast_2d(ws), np.atleast_2d(sol.value(o2.T))]
         except Exception as e:
             fr = core.rockit_frame(sys.exc_info()[2])
             if fr is None and not isinstance(e, (RuntimeError, AssertionError, ValueError)):
                 raise
             vios.append(dict(sig="exception:pipeline:%s" % (fr or type(e).__name__), tags=tags, detail="%s: %s" % (type(e).__name__, str(e)[:200]))); break
         evals += 1
-        names = ["states", "controls", "objective", "variable"]
+        names = ["states", "controls", "objective", "variable", "variable_plus", "T"]
         tol = 1e-6 if budget == "converge" else 1e-9
         for nm, g_, w_ in zip(names, got, want):
             g2 = np.atleast_2d(g_); w2 = np.atleast_2d(w_)
@@ -152,6 +168,10 @@ def run_case(case):
             if g2.shape != w2.shape or not NL.close(g2, w2, tol):
                 vios.append(dict(sig="value:%s:%s" % (budget, nm), tags=tags, detail="F%s: %s = %s, pipeline gives %s" % (tuple(combo), nm, np.round(g2, 6).tolist(), np.round(w2, 6).tolist())))
                 break
+        if variant == "Tfree" and budget == "zero" and not vios:
+            # an argument that is not listed keeps its current value: the user's guess of T
+            if not NL.close(np.atleast_2d(got[5]), np.array([[2.2]]), 1e-9):
+                vios.append(dict(sig="value:zero:unlisted-guess", tags=tags, detail="F starts from T=%s although the current guess of the (unlisted) free horizon is 2.2" % np.round(got[5], 6).tolist()))
         outs.append(np.round(got[2], 7).tolist())
         if vios: break
     return dict(violations=vios, evaluations=max(evals, 1), traces=1 + evals, transitions=len(combos), outcome=explore.sha([case, outs]), nontrivial=evals > 0,
@@ -160,6 +180,6 @@ def run_case(case):
 
 def describe(tier):
     return dict(
-        rule="strictly convex OCP (linear 2-state dynamics with a matrix and a vector parameter, a global and a per-interval parameter, a global variable, quadratic cost, N=3) x method {MS M=1/2, SS, DC M=1/2} x every ordered argument list of length <=%d over {value(global parameter), sampled per-interval parameter, concatenation vec(A);b of a matrix and a vector parameter, sampled state guess, sampled control guess, valued variable guess} x the full product of a 3-value alphabet per argument x solver budget {converge (tol 1e-11), zero iterations (returns the start point: decides the initial-guess arguments)}: every output of F (sampled states, sampled controls, objective, variable) equals the result of a fresh OCP on which the same values are assigned with set_value / set_initial, solved, and read with sol.sample / sol.value" % (3 if tier == "thorough" else 2),
+        rule="strictly convex OCP (linear 2-state dynamics with a matrix and a vector parameter, a global and a per-interval parameter, a global variable, quadratic cost, N=3) x method {MS M=1/2, SS, DC M=1/2} x every ordered argument list of length <=%d over {value(global parameter), sampled per-interval parameter, concatenation vec(A);b of a matrix and a vector parameter, sampled state guess, sampled control guess, valued variable guess, sampled include_last variable guess}; a free-horizon variant with a user guess of T that is not an argument x the full product of a 3-value alphabet per argument x solver budget {converge (tol 1e-11), zero iterations (returns the start point: decides the initial-guess arguments)}: every output of F (sampled states, sampled controls, objective, variable) equals the result of a fresh OCP on which the same values are assigned with set_value / set_initial, solved, and read with sol.sample / sol.value" % (3 if tier == "thorough" else 2),
         bound="argument lists of length <=%d; 3 values per argument" % (3 if tier == "thorough" else 2),
         assumptions=["ipopt is deterministic for a fixed NLP and start point", "a non-converged 'converge' run is inconclusive (counted)"])
